@@ -124,20 +124,24 @@ def shard(shard_no, nshards, seed, tier, extra):
 
 
 def miri_requests(shard_no, nshards, seed):
+    # sized for a few minutes per shard: Miri runs the pipeline about four orders of magnitude slower than native
     rng = common.rng_for(seed, "c01-miri", shard_no)
     B = evm.boundary_constants()
     reqs = []
-    for i in range(14):
+    for i in range(9):
         if i % 3 == 0:
-            code = bytes(rng.getrandbits(8) for _ in range(rng.choice([3, 10, 40])))
+            code = bytes(rng.getrandbits(8) for _ in range(rng.choice([3, 10, 30])))
         elif i % 3 == 1:
-            code, _ = progs.sinks(rng, B)
-            code = code[:400]
+            a = evm.Asm()
+            # one statement of the sinks generator, without the dispatcher
+            full, _ = progs.sinks(rng, B)
+            code = full[-rng.randint(20, 90):]
         else:
-            code, _ = progs.mask_shift(rng)
+            full, _ = progs.mask_shift(rng)
+            code = full[-rng.randint(20, 90):]
         reqs.append({"op": "analyze", "code": code.hex(), "stage": "analyze", "small_hashes": 3, "monitor": False,
                      "cfg": {"permissive": rng.random() < 0.5, "iters": 2, "forks": 2},
-                     "wd": {"every": 10, "stop_at": 3000}})
+                     "wd": {"every": 10, "stop_at": 1500}})
     return reqs
 
 
